@@ -412,6 +412,87 @@ class LibLoops:
                 out.append((s2, R if kind != "set" else self.set_of_list(R, s2)))
         return out
 
+    def any_all_pyval(self, name, gen, g, L, st, call):
+        """any(f(x) for x in L) / all(...) over python values of unknown type, with CPython's left-to-right evaluation: the element expression is
+        evaluated in program mode on a symbolic element; the paths on which it raises TypeError give bad(i), the others its truth value t(i).
+        Result: TypeError if some element raises before the iteration has stopped; otherwise the usual truth value."""
+        e = self.e
+        self.use("any()/all() over a generator evaluate elements left to right and stop at the first decisive one; an exception in an element expression propagates")
+        i = z3.Int(fresh_name("qi"))
+        n, at = e.list_len(L), e.list_at(L)
+        base = st.fork()
+        n0 = len(base.pc)
+        for s4, oc in e.assign_lvalue(g.target, Val(PYVAL, z3.Select(at, i)), base):
+            pass
+        saved = e.discovery
+        e.discovery += 1          # obligations inside the element expression are not generated per element; raising paths are collected instead
+        try:
+            outs = e.ev(gen.elt, base)
+        finally:
+            e.discovery = saved
+        def consts_of(t, acc, seen):
+            if t.get_id() in seen:
+                return
+            seen.add(t.get_id())
+            if z3.is_const(t) and t.decl().kind() == z3.Z3_OP_UNINTERPRETED:
+                acc[t.decl().name()] = t
+            elif z3.is_app(t):
+                for ch in t.children():
+                    consts_of(ch, acc, seen)
+            elif z3.is_quantifier(t):
+                consts_of(t.body(), acc, seen)
+        known, seen0 = {}, set()
+        for c in base.pc[:n0]:
+            consts_of(c, known, seen0)
+        consts_of(at, known, seen0); consts_of(n, known, seen0)
+        known[i.decl().name()] = i
+
+        def delta_of(so):
+            keep = []
+            for c in so.pc[n0:]:
+                cs = {}
+                consts_of(c, cs, set())
+                fresh = [v for k, v in cs.items() if k not in known]
+                # facts about objects allocated while evaluating the element (a ctypes box): always satisfiable, not a condition on the element
+                if fresh and all(v.sort() == e.S.Ref for v in fresh):
+                    continue
+                keep.append(c)
+            return z3.And(*keep) if keep else z3.BoolVal(True)
+        bad_terms, true_terms = [], []
+        for so, r in outs:
+            delta = delta_of(so)
+            if isinstance(r, Exc) and r.cls != "TypeError" and not e.feasible(so):
+                continue
+            if isinstance(r, Exc):
+                if r.cls != "TypeError":
+                    raise Unsupported(f"{r.cls} inside a generator over python values", call, e.path)
+                bad_terms.append(delta)
+            else:
+                true_terms.append(z3.And(delta, e.truth(r)))
+        if not bad_terms:
+            # no element expression can raise: the order of evaluation does not matter
+            tr = z3.Or(*true_terms) if true_terms else z3.BoolVal(False)
+            rng0 = z3.And(0 <= i, i < n)
+            return [(st, Val(BOOL, z3.Exists([i], z3.And(rng0, tr)) if name == "any" else z3.ForAll([i], z3.Implies(rng0, tr))))]
+        bad_i = z3.Or(*bad_terms) if bad_terms else z3.BoolVal(False)
+        tr_i = z3.Or(*true_terms) if true_terms else z3.BoolVal(False)
+        stop_i = tr_i if name == "any" else z3.And(z3.Not(tr_i), z3.Not(bad_i))
+        j = z3.Int(fresh_name("qj"))
+        sub = lambda t: z3.substitute(t, (i, j))
+        quiet_before = z3.ForAll([j], z3.Implies(z3.And(0 <= j, j < i), z3.And(z3.Not(sub(bad_i)), z3.Not(sub(stop_i)))))
+        rng = z3.And(0 <= i, i < n)
+        raises = z3.Exists([i], z3.And(rng, bad_i, quiet_before))
+        stops = z3.Exists([i], z3.And(rng, z3.Not(bad_i), stop_i, quiet_before))
+        out = []
+        for s5, exc in e.split(st, raises):
+            if exc:
+                out.append((s5, Exc("TypeError", "raised by an element of the generator", call.lineno)))
+            else:
+                # least-element principle (integers are well ordered): if no element raises first and none stops the iteration first, then none raises or stops at all
+                s5.assume(z3.Or(stops, z3.ForAll([i], z3.Implies(rng, z3.And(z3.Not(bad_i), z3.Not(stop_i))), patterns=[z3.Select(at, i)])))
+                out.append((s5, Val(BOOL, stops if name == "any" else z3.Not(stops))))
+        return out
+
     def call_builtin_lazy(self, name, call, st):
         """any(...) / all(...) over a generator expression"""
         e = self.e
@@ -427,6 +508,9 @@ class LibLoops:
                 out.append((s, itv))
                 continue
             for s2, L in (self.to_list(itv, s, call) if itv.t[0] != "list" else [(s, itv)]):
+                if L.t[1] == PYVAL and not e.spec_mode:
+                    out.extend(self.any_all_pyval(name, gen, g, L, s2, call))
+                    continue
                 i = z3.Int(fresh_name("qi"))
                 s3 = s2.fork()
                 elem = Val(L.t[1], z3.Select(e.list_at(L), i))
